@@ -29,7 +29,7 @@ func init() {
 	Register(&Rule{ID: "NILLINKDECODE", Props: []string{"C05", "C09"}, Min: 2,
 		Doc: "decoders turn an empty link name back into a nil link: a string stored into a []interface{} element on the load path is known non-empty on that path (the writer encodes a nil link as the empty string).",
 		Run: runNILLINKDECODE})
-	Register(&Rule{ID: "CURSORCLONE", Props: []string{"C02", "C10"}, Min: 2,
+	Register(&Rule{ID: "CURSORCLONE", Props: []string{"C02", "C10", "C16"}, Min: 2,
 		Doc: "Cursor() walks the clone, not the original: the tree it stores in the cursor and the tree through which it loads the path's root node are both the local result of Clone.",
 		Run: runCURSORCLONE})
 	Register(&Rule{ID: "STALEPTR", Props: []string{"C10", "C01"}, Min: 3,
